@@ -27,7 +27,8 @@ PARTIAL = [
     "the connect-timeout and client keep-alive-loop models (Timer.connect_phase, Timer.k_step) are small "
     "stand-alone models validated by the real-time scenarios only",
     "write back-pressure that begins in the very poll that extended the read timer "
-    "(C20_no_underflow_refuted_backpressure) is proved about the model, not replayed",
+    "(C20_no_underflow_refuted_backpressure) is replayed on the real dispatcher only with an injected expiry "
+    "(iostate case 0,4,0,0,50,0,0,0,0,0,1;1,5,0,0,0;1,6;12,0;13,5,5;9;12,1), not in real time",
 ]
 
 
